@@ -214,7 +214,7 @@ def gen_tree(rng, prof=None, depth=0, idgen=None, top=True, maxdepth=None):
             job['forever'] = rng.random() < p.get('p_forever', 0.15)
             job['outcome'] = 'raise' if rng.random() < p.get('p_raise', 0.25) else 'return'
             if job['outcome'] == 'raise' and rng.random() < 0.4:
-                job['exc'] = rng.choice(['timeout', 'key', 'custom', 'base', 'empty', 'multiline'])
+                job['exc'] = rng.choice(['timeout', 'key', 'custom', 'base', 'empty', 'multiline', 'group', 'queue'])
             if job['outcome'] == 'return' and rng.random() < 0.2:
                 job['retval'] = rng.choice(['none', 'false', 'zero', 'empty', 'future'])
             job['cdur'] = rng.choice(p.get('cdurs', [0, 0, 0, 1, 2]))
@@ -239,6 +239,9 @@ def gen_tree(rng, prof=None, depth=0, idgen=None, top=True, maxdepth=None):
                 # a job that times out an inner operation by itself and carries on
                 job['itmo'] = dict(after=rng.choice([0.5, 1, 1.5]), close=rng.choice([0.5, 1, 2, 3]),
                                    rounds=rng.choice([1, 1, 2]))
+            if not job.get('print') and job['dur'] and rng.random() < p.get('p_sub', 0.06):
+                # the job spends its main delay in tasks of its own
+                job['sub'] = rng.choice(['gather', 'taskgroup', 'shield'])
             if job.get('print'):
                 # a PrintJob always ends by itself and has a trivial co_shutdown()
                 if job['dur'] is None:
